@@ -16,7 +16,7 @@ REQUIRED_THEOREMS = [
     "Cv.C11.matrix_cholesky_eq_slice", "Cv.C11.matrix_forward_eq_slice", "Cv.C11.matrix_backward_eq_slice", "Cv.C11.cholesky_rejects_indefinite_witness",
 ]
 RULE = ("orders 1..32 x {SPD to cond 1e8, symmetric indefinite with positive diagonal (float and integer), dense, "
-        "adversarial pivot columns, extreme power-of-two scale with scaling-invariance pairs, every factorisation at powers of four 4^k (|k| 26..480) with exact factor-scaling pairs, mixed-scale diagonals, singular PSD B*B^T, sparse SPD (arrowhead, banded, block), integer, singular, rank-deficient, zero leading pivot, permutation matrices, triangular} x "
+        "structured inputs (exactly lower/upper triangular, diagonal, bidiagonal, Hessenberg, arrow, permuted triangular with dominant / dominated / zero diagonals), adversarial pivot columns, extreme power-of-two scale with scaling-invariance pairs, every factorisation at powers of four 4^k (|k| 26..480) with exact factor-scaling pairs, mixed-scale diagonals, singular PSD B*B^T, sparse SPD (arrowhead, banded, block), integer, singular, rank-deficient, zero leading pivot, permutation matrices, triangular} x "
         "{lu, cholesky, det, lu_det, triangular solves, cholesky_solve, lu_solve} in slice and Matrix form, "
         "plus permutation vectors up to length 40 for ipiv_parity; non-trivial = distinct (op, class, order)")
 EXHAUSTIVE = {"quick": False, "thorough": False}
@@ -209,6 +209,75 @@ def strata(rng, tier, lines, cover):
             lines.append("mis_lower %d %d %s" % (n, n, vec(L)))
 
 
+# ---------------------------------------------------------------- structured inputs (round-11 seed C11y)
+def g_structured(rng, n, shape, mode, ints):
+    """exactly structured matrices: lower / upper triangular, diagonal, bidiagonal, Hessenberg, arrow, permuted triangular;
+    mode 'dom' = dominant diagonal, 'sub' = off-diagonal entries larger than the diagonal (pivoting must exchange rows),
+    'zero' = some zeros on the diagonal"""
+    def off():
+        v = float(rng.randint(2, 9) * rng.choice([-1, 1])) if ints else rng.choice([-1.0, 1.0]) * rng.uniform(1.5, 6.0)
+        return v if mode != "dom" else v / 16.0
+    def dia():
+        return float(rng.choice([-1, 1])) * (float(rng.randint(1, 2)) if ints else rng.uniform(0.2, 1.0)) * (8.0 if mode == "dom" else 1.0)
+    A = [0.0] * (n * n)
+    for i in range(n):
+        for j in range(n):
+            keep = {"lower": j < i, "upper": j > i, "diag": False, "bidiag": j == i - 1, "hess": j < i or j == i + 1,
+                    "arrow": (i == n - 1 and j < i) or (j == n - 1 and i < j) if False else (i == n - 1 and j < i),
+                    "permtri": j < i}[shape]
+            if keep and (shape in ("bidiag", "arrow") or rng.chance(0.8)):
+                A[i * n + j] = off()
+        A[i * n + i] = dia()
+    if mode == "zero":
+        for _ in range(rng.randint(1, max(1, n // 3))):
+            q = rng.randint(0, n - 1)
+            A[q * n + q] = 0.0
+    if shape == "permtri":
+        perm = rng.shuffle(list(range(n)))
+        A = [A[perm[i] * n + j] for i in range(n) for j in range(n)]
+    return A
+
+
+def structured_strata(rng, tier, lines, cover):
+    def cnt(k):
+        cover[k] = cover.get(k, 0) + 1
+
+    shapes = ["lower", "upper", "diag", "bidiag", "hess", "arrow", "permtri"]
+    for rep in range(1 if tier == "quick" else 4):
+        for n in range(2, 13):
+            for si, shape in enumerate(shapes):
+                mode = ["dom", "sub", "zero"][(n + si + rep) % 3]
+                if shape == "lower":
+                    mode = ["sub", "sub", "dom", "zero"][(n + rep) % 4]
+                ints = (n + si) % 2 == 0
+                A = g_structured(rng, n, shape, mode, ints)
+                cnt("structured:%s:%s" % (shape, mode))
+                lines.append("# structured %s %s n=%d" % (shape, mode, n))
+                lines.append("both_lu " + vec(A))
+                lines.append("mlu %d %d %s" % (n, n, vec(A)))
+                lines.append("mdet %d %d %s" % (n, n, vec(A)))
+                if si % 2 == 0:
+                    lines.append("lu " + vec(A))
+                    piv = rng.shuffle(list(range(n)))
+                    lines.append("mlu_det %d %d %s %d %s" % (n, n, vec(A), n, " ".join(map(str, piv))))
+                if shape in ("lower", "bidiag", "arrow", "diag") and mode != "zero":
+                    # the SPD matrix with this (sign-normalised) factor: Cholesky must return a lower-triangular factor of it
+                    L = [abs(v) if q // n == q % n else (v if (q % n) < (q // n) else 0.0) for q, v in enumerate(A)]
+                    S = [math.fsum(L[i * n + k2] * L[j * n + k2] for k2 in range(n)) for i in range(n) for j in range(n)]
+                    for i in range(n):
+                        for j in range(i):
+                            S[i * n + j] = S[j * n + i]
+                    lines.append("both_chol " + vec(S))
+
+
+def _c11y_corpus():
+    """round-11 seed C11y: exactly lower-triangular matrices whose sub-diagonal entries exceed the diagonal in every column —
+    partial pivoting must exchange rows; slice lu and Matrix::lu must agree and |L| <= 1"""
+    a3 = [1., 0., 0., 4., 1., 0., -3., 5., 1.]
+    a5 = [0.5, 0, 0, 0, 0, 2, 0.25, 0, 0, 0, -3, 1, 0.5, 0, 0, 1, -4, 2, 1, 0, 6, 3, -5, 7, 2]
+    return ["both_lu " + vec(a3), "both_lu " + vec([float(v) for v in a5])]
+
+
 CRATE_SPD4 = [6., 3., 4., 8., 3., 6., 5., 1., 4., 5., 10., 7., 8., 1., 7., 25.]   # test_cholesky of the crate
 SCALE4 = [-26, -30, -50, -100, -250, -480, 50, 250, 480]                       # exponents k of 4^k
 
@@ -273,7 +342,7 @@ def corpus():
     c = "16 " + " ".join(f2h(float(v)) for v in cyc)
     return ["chol " + a, "mchol 2 2 " + a, "both_chol " + a, "parity 4 1 2 3 0", "mdet 4 4 " + c,
             "mlu_det 4 4 %s 4 1 2 3 0" % ("16 " + " ".join(f2h(float(i // 4 == i % 4)) for i in range(16))),
-            "both_lu " + c] + _c11w_corpus()
+            "both_lu " + c] + _c11w_corpus() + _c11y_corpus()
 
 
 def gen(rng, tier):
@@ -366,6 +435,7 @@ def gen(rng, tier):
         lines.append("lu_pair %s %s" % (vec(base), vec([math.ldexp(v, k) for v in base])))
     strata(rng, tier, lines, cover)
     scale_strata(rng, tier, lines, cover)
+    structured_strata(rng, tier, lines, cover)
     for a in ([4.0, 2.0, 2.0, 1.0], [1.0, 1.0, 1.0, 1.0], [0.0]):   # C11e witnesses: exactly zero last pivot
         lines.append("both_chol " + vec(a))
     z = f2h(0.0)
